@@ -75,6 +75,16 @@ def call_rules(run, r_call, r_final, u):
         run.instance(r_final, "%s: dynamic != static -> method_table_error(dynamic id)" % short, f.where(), ok=ok)
         if not ok:
             run.violation(r_final, "virtual_ptr::final|type-check", "%s: %s" % (short, why), f.where())
+        # the registration check in final is about the STATIC class (the one whose v-table is handed out); validating the
+        # dynamic id there reports an object of another, unregistered class as 'unknown class' before the type comparison
+        # can report the method-table error the property requires
+        hc = [i for i in f.all_insts() if i.op in ("call", "invoke") and i.callee and re.search(r"checked_perfect_hash<.*>::hash_type_id\(", i.callee)]
+        for i in hc:
+            v = S.value(f, i.ops[0]) if i.ops else None
+            okh = v is not None and v[0] == "call" and "::static_type<" in v[1]
+            run.instance(r_final, "%s: the registration check validates the static class id" % short, i.where(), ok=okh)
+            if not okh:
+                run.violation(r_final, "virtual_ptr::final|checked-id", "%s validates %s with the checked hash: an object of another (unregistered) dynamic class is reported as unknown class instead of as a method-table error" % (short, sym.show(v)[:100] if v else "?"), i.where())
 
 
 def check(run):
@@ -88,6 +98,7 @@ def check(run):
         ast, _ = crules.unit(run, ndebug=nd)
         crules.lookup_rules(run, None, r1, ast)
         lookups_unconditional(run, r1, ast)
+        crules.phase_rules(run, r1, ast)
         units = callpath.build_units(run, sorted(witness.CHECKED), ["r", "V", "X", "W", "sS", "rir"], ndebug=nd, tag="c15")
         for u in units:
             call_rules(run, r2, r3, u)
